@@ -34,3 +34,138 @@ package core
 //@   ensures[failed] result2 != nil ==> result0 == nil
 //@   loop 1 invariant[parent] parent != nil && rangeindex < ncomp(path) - 1 && t.root == old(t.root)
 //@   loop 1 invariant[parent] filesystem.dpos(parent) == ppos(t.root, path, rangeindex + 1)
+
+// ------------------------------------------------------------------ C08
+// Destructive operations happen only after the on-disk object was compared
+// with what the scan recorded. The state of the disk is named by uninterpreted
+// functions of (directory handle, name): dmode/dsize/dfid/dmtime are what
+// Directory.ReadContentMetadata reports for that name, dlink what
+// Directory.ReadSymbolicLink reports (the two "at call ... assume" clauses
+// below are these definitions; the window between the check and the
+// operation is the race the code documents and is outside a sequential
+// contract). teq/pbtime are time.Time.Equal and Timestamp.AsTime.
+
+//@ ufunc dmode(d int, n string) int
+//@ ufunc dsize(d int, n string) int
+//@ ufunc dfid(d int, n string) int
+//@ ufunc dmtime(d int, n string) time.Time
+//@ ufunc dlink(d int, n string) string
+
+//@ pred digesteq(a, b) = len(a) == len(b) && forall di in 0..len(a) :: a[di] == b[di]
+//@ pred filematch(t, parent, name, path, expected) = has(t.cache.Entries, path) && dmode(parent, name) == t.cache.Entries[path].Mode && teq(dmtime(parent, name), pbtime(t.cache.Entries[path].ModificationTime)) && dsize(parent, name) == t.cache.Entries[path].Size && dfid(parent, name) == t.cache.Entries[path].FileID && digesteq(t.cache.Entries[path].Digest, expected.Digest)
+
+//@ func (*transitioner).ensureExpectedFile
+//@   pure
+//@   at call (*Directory).ReadContentMetadata assume result1 == nil ==> result0.Mode == dmode(parent, name) && result0.Size == dsize(parent, name) && result0.FileID == dfid(parent, name) && result0.ModificationTime == dmtime(parent, name)
+//@   ensures[match] result == nil ==> filematch(t, parent, name, path, expected)
+
+//@ func (*transitioner).ensureExpectedSymbolicLink
+//@   at call (*Directory).ReadSymbolicLink assume result1 == nil ==> result0 == dlink(parent, name)
+//@   ensures[match] result == nil ==> dlink(parent, name) == expected.Target
+
+//@ func (*transitioner).removeFile
+//@   at call (*Directory).RemoveFile assert[checked] arg0 == parent && arg1 == name && filematch(t, parent, name, path, expected)
+
+//@ func (*transitioner).removeSymbolicLink
+//@   at call (*Directory).RemoveSymbolicLink assert[checked] arg0 == parent && arg1 == name && dlink(parent, name) == expected.Target
+
+// swapFile replaces or re-modes the file only after the comparison with the
+// old entry succeeded for the very (parent, name) it operates on.
+//@ func (*transitioner).swapFile
+//@   requires t != nil
+//@   at call (*Directory).SetPermissions assert[checked] arg0 == parent && arg1 == name && filematch(t, parent, name, path, oldEntry)
+//@   at call (*transitioner).findAndMoveStagedFileIntoPlace assert[checked] arg1 == path && arg3 == parent && arg4 == name && filematch(t, parent, name, path, oldEntry)
+
+// Replacement of an existing target is requested from Rename only when the
+// caller asked for it; the only file this function deletes is its own
+// temporary file.
+//@ func (*transitioner).findAndMoveStagedFileIntoPlace
+//@   at call filesystem.Rename assert[passreplace] arg2 == parent && arg3 == name && arg4 == replace
+//@   at call (*Directory).RemoveFile assert[temponly] arg0 == parent && arg1 == temporaryName
+
+//@ func (*transitioner).createFile
+//@   at call (*transitioner).findAndMoveStagedFileIntoPlace assert[noreplace] !arg5 && arg3 == parent && arg4 == name
+
+// removeDirectory: every removal inside the directory is made through the
+// handle opened for it, for a name the plan has an entry for, with that very
+// entry (whose kind selects the operation); the directory itself is removed
+// only when no unknown content was seen, nothing failed and the transition
+// was not cancelled.
+//@ func (*transitioner).removeDirectory
+//@   requires t != nil && expected != nil
+//@   at call (*Directory).OpenDirectory assert[handle] arg0 == parent && arg1 == name
+//@   at call (*transitioner).removeFile assert[planned] arg1 == directory && arg2 == contentName && has(expected.Contents, contentName) && arg4 == expected.Contents[contentName] && arg4.Kind == EntryKind_File
+//@   at call (*transitioner).removeSymbolicLink assert[planned] arg1 == directory && arg2 == contentName && has(expected.Contents, contentName) && arg4 == expected.Contents[contentName] && arg4.Kind == EntryKind_SymbolicLink
+//@   at call (*transitioner).removeDirectory assert[planned] arg1 == directory && arg2 == contentName && has(expected.Contents, contentName) && arg4 == expected.Contents[contentName] && arg4.Kind == EntryKind_Directory
+//@   at call (*Directory).RemoveDirectory assert[nounknown] arg0 == parent && arg1 == name && !unknownContentEncountered && !contentRemovalFailed && !cancelled
+//@   loop 1 invariant[flag] rangeindex >= 0 && !ok ==> unknownContentEncountered
+//@   ensures[cleared] result ==> expected.Contents == nil
+
+// remove dispatches on the kind of the entry the plan expects.
+//@ func (*transitioner).remove
+//@   requires t != nil
+//@   at call (*transitioner).removeFile assert[kind] arg1 == parent && arg2 == name && arg3 == path && arg4 == entry && entry.Kind == EntryKind_File
+//@   at call (*transitioner).removeSymbolicLink assert[kind] arg1 == parent && arg2 == name && arg3 == path && arg4 == entry && entry.Kind == EntryKind_SymbolicLink
+//@   at call (*transitioner).removeDirectory assert[kind] arg1 == parent && arg2 == name && arg3 == path && entry.Kind == EntryKind_Directory
+//@   ensures[result] (entry == nil ==> result == nil) && (result == nil || result == entry || fresh(result))
+//@   ensures[leaf] entry != nil && entry.Kind != EntryKind_Directory ==> result == nil || result == entry
+//@   at call (*transitioner).removeDirectory assert[copy] fresh(arg4) && arg4 != nil
+
+// ------------------------------------------------------------------ C09
+// What the reported entries are, at the level a sequential function contract
+// can say it.
+
+// Copy yields a new object (nil for nil) that agrees with the original on the
+// scalar fields; a slim copy has no contents.
+//@ func (*Entry).Copy
+//@   pure
+//@   fresh result
+//@   ensures[copy] (e == nil ==> result == nil) && (e != nil ==> result != nil && result.Kind == e.Kind && result.Executable == e.Executable && result.Target == e.Target)
+//@   ensures[slim] e != nil && behavior == EntryCopyBehaviorSlim ==> result.Contents == nil
+
+// remove reports nil only through the success paths; for files and links the
+// reported remainder is the expected entry itself, for directories it is a
+// private copy that removeDirectory reduces - the plan's own entry is never
+// handed to removeDirectory for mutation.
+// (clauses result, leaf, copy: in the contract of remove above)
+
+// When removeDirectory reports complete removal, the reduced entry has no
+// contents left.
+// (clause cleared: in the contract of removeDirectory above)
+
+// createDirectory reports nil or a new entry of the target's kind (never the
+// target itself); every creation inside it is made in the handle opened for
+// the new directory, for a name and entry taken from the target's contents.
+//@ func (*transitioner).createDirectory
+//@   requires t != nil && target != nil
+//@   fresh result
+//@   ensures[kind] result != nil ==> result.Kind == target.Kind
+//@   at call (*Directory).CreateDirectory assert[first] arg0 == parent && arg1 == name
+//@   at call (*transitioner).createFile assert[planned] arg1 == directory && has(target.Contents, arg2) && arg4 == target.Contents[arg2] && arg4.Kind == EntryKind_File
+//@   at call (*transitioner).createSymbolicLink assert[planned] arg1 == directory && has(target.Contents, arg2) && arg4 == target.Contents[arg2] && arg4.Kind == EntryKind_SymbolicLink
+//@   at call (*transitioner).createDirectory assert[planned] arg1 == directory && has(target.Contents, arg2) && arg4 == target.Contents[arg2] && arg4.Kind == EntryKind_Directory
+
+//@ func (*transitioner).create
+//@   requires t != nil
+//@   ensures[result] (target == nil ==> result == nil) && (result == nil || result == target || fresh(result))
+//@   ensures[leaf] target != nil && target.Kind != EntryKind_Directory ==> result == nil || result == target
+//@   at call (*transitioner).createDirectory assert[kind] arg1 == parent && arg2 == name && arg3 == path && arg4 == target && target.Kind == EntryKind_Directory
+//@   at call (*transitioner).createFile assert[kind] arg1 == parent && arg2 == name && arg3 == path && arg4 == target && target.Kind == EntryKind_File
+//@   at call (*transitioner).createSymbolicLink assert[kind] arg1 == parent && arg2 == name && arg3 == path && arg4 == target && target.Kind == EntryKind_SymbolicLink
+
+// Transition: exactly one result per transition, in order; each operation is
+// applied to the path and entries of its own transition; whenever Transition
+// itself records a problem for a transition (cancellation observed at its
+// check point, or a failed swap) the entry reported for it is the old entry;
+// every reported entry is nil, the transition's old or new entry, or an entry
+// built during this call.
+//@ func Transition
+//@   requires forall k in 0..len(transitions) :: transitions[k] != nil
+//@   at call (*transitioner).swapFile assert[plan] arg1 == t.Path && arg2 == t.Old && arg3 == t.New && t.Old != nil && t.New != nil && t.Old.Kind == EntryKind_File && t.New.Kind == EntryKind_File
+//@   at call (*transitioner).remove assert[plan] arg1 == t.Path && arg2 == t.Old
+//@   at call (*transitioner).create assert[plan] arg1 == t.Path && arg2 == t.New
+//@   at call (*transitioner).recordProblem assert[old] arg1 == t.Path && len(results) == rangeindex + 1 && results[rangeindex] == t.Old
+//@   ensures[count] len(result0) == len(transitions)
+//@   ensures[entries] forall i in 0..len(result0) :: result0[i] == nil || result0[i] == transitions[i].Old || result0[i] == transitions[i].New || fresh(result0[i])
+//@   loop 1 invariant[count] len(results) == rangeindex + 1 && rangeindex < len(transitions)
+//@   loop 1 invariant[entries] forall i in 0..len(results) :: results[i] == nil || results[i] == transitions[i].Old || results[i] == transitions[i].New || fresh(results[i])
